@@ -247,6 +247,7 @@ func execPatherDaemon(t []string) string {
 	}
 	switch {
 	case t[0] == "pd.start" && len(t) == 5:
+		persistReset(true)
 		var dst []addr.IA
 		for _, n := range list(kv(t, "dst")) {
 			ia, ok := pdIAs[n]
